@@ -41,6 +41,7 @@ import CtyModel.Lemmas.d08bUnmark
 import CtyModel.Lemmas.d08bFrontier
 import CtyModel.Lemmas.d08bKept
 import CtyModel.Lemmas.d08bSetRT
+import CtyModel.Lemmas.d08bConform
 namespace CtyModel
 namespace C08
 open Convert Ty
@@ -271,6 +272,48 @@ theorem conformingConvertsToItself_false : ¬ ConformingConvertsToItself := by
     conforming_converts_to_itself_counterexample.2.1
   rw [conforming_converts_to_itself_counterexample.2.2.1] at this
   simp at this
+
+/-- What does hold, placeholders anywhere in the target: on lists and maps nested to any depth over
+primitive leaves, a value that conforms to the target and is SPELLED OUT wherever the target is
+(`D08B.solidFor`: a primitive of the same type, or a NON-EMPTY list / map of such members; anything
+unmarked below a placeholder of the target) converts to itself — for every environment satisfying
+`UnifyLaws`, every fuel (or the model runs out of fuel), by induction over the plans
+`getConversionKnown` builds for such pairs.  The empty collection is exactly what the hypothesis
+excludes, and `conforming_converts_to_itself_counterexample` shows it cannot be dropped. -/
+theorem conforming_converts_to_itself_partial (E : Env) (hU : UnifyLaws E) (fuel : Nat) (inT want : Ty)
+    (p : Payload) (hw : wf inT = true) (hd : hasDyn inT = false) (ho : hasOpt inT = false)
+    (hs : D08B.solidFor want inT p = true)
+    (hg : (getConv E inT want true).isSome = true ∨ inT.equals want.stripOpt = true) :
+    convert E fuel ⟨inT, p⟩ want = .ok ⟨inT, p⟩ ∨ convert E fuel ⟨inT, p⟩ want = .unmodelled := by
+  unfold convert convertWith
+  split
+  · exact .inl rfl
+  · rename_i hne
+    rcases hg with hg | hg
+    · obtain ⟨q, hq⟩ := Option.isSome_iff_exists.mp hg
+      obtain ⟨c, hc, rfl⟩ := Option.map_eq_some_iff.mp hq
+      simp only [hq]
+      rcases D08B.conf_apply hU want inT true c hc hw hd ho p hs fuel with h | h
+      · exact .inr h
+      · exact .inl h
+    · exact absurd hg hne
+
+/-- … hence idempotence on that fragment: if the result of a conversion is spelled out wherever the
+target is, converting it again returns it. -/
+theorem idempotent_spelled_out_partial (E : Env) (hU : UnifyLaws E) (fuel fuel' : Nat) (v r : Value) (want : Ty)
+    (_h : convert E fuel v want = .ok r) (hw : wf r.ty = true) (hd : hasDyn r.ty = false)
+    (ho : hasOpt r.ty = false) (hs : D08B.solidFor want r.ty r.v = true)
+    (hg : (getConv E r.ty want true).isSome = true ∨ r.ty.equals want.stripOpt = true) :
+    convert E fuel' r want = .ok r ∨ convert E fuel' r want = .unmodelled :=
+  conforming_converts_to_itself_partial E hU fuel' r.ty want r.v hw hd ho hs hg
+
+/-- the hypotheses are satisfiable by a nested value and a nested placeholder; the witness of the
+counterexample fails exactly `solidFor` (its first member is an empty list) -/
+example : D08B.solidFor (.list (.list (.map .dyn))) (.list (.list (.map .bool)))
+    (.seq [.seq [.smap ["j"] [.b false]], .seq [.smap ["k"] [.b true]]]) = true := by decide
+example : (getConv Env.simple (.list (.list (.map .bool))) (.list (.list (.map .dyn))) true).isSome = true := by decide
+example : D08B.solidFor (.list (.list (.map .dyn))) (.list (.list (.map .bool)))
+    (.seq [.seq [], .seq [.smap ["k"] [.b true]]]) = false := by decide
 
 /-- the same two lists without the empty one convert to themselves: the failure needs the empty member -/
 example : convert Env.simple 8 ⟨.list (.list (.map .bool)), .seq [.seq [.smap ["j"] [.b false]], .seq [.smap ["k"] [.b true]]]⟩
